@@ -268,3 +268,54 @@ def module_sets(rng):
         (pa, ta), (pb, tb) = rng.choice(files), rng.choice(files)
         out.append([(pa, ta), (pb if pb != pa else pb + "2", tb)])
     return out
+
+
+IMPORT_RE = re.compile(r'(?m)^import\s+"([^"]+)";')
+
+
+def import_closure(relpath, text):
+    """[(key, text)] of a corpus file and everything it (transitively) imports, keyed the way
+    main.rs keys compilation units (relative paths; `core:` / `vendor:` URIs for included sources)."""
+    out = []
+    seen = set()
+
+    def add(key, txt, base_dir, scheme):
+        if key in seen:
+            return True
+        seen.add(key)
+        out.append((key, txt))
+        for imp in IMPORT_RE.findall(txt):
+            if imp.startswith("core:") or imp.startswith("vendor:"):
+                sch, sub = imp.split(":", 1)
+                path = os.path.join(common.REPO, sch, sub)
+                t = common.read_text(path) if os.path.isfile(path) else None
+                if t is None:
+                    return False
+                if not add(imp, t, os.path.dirname(path), sch):
+                    return False
+            else:
+                path = os.path.normpath(os.path.join(base_dir, imp))
+                t = common.read_text(path) if os.path.isfile(path) else None
+                if t is None:
+                    return False
+                if scheme:
+                    k = scheme + ":" + os.path.relpath(path, os.path.join(common.REPO, scheme))
+                else:
+                    k = os.path.relpath(path, common.REPO)
+                if not add(k, t, os.path.dirname(path), scheme):
+                    return False
+        return True
+
+    ok = add(relpath, text, os.path.dirname(os.path.join(common.REPO, relpath)), None)
+    return out if ok else None
+
+
+def corpus_import_sets():
+    """Corpus files that import something, with their import closure."""
+    sets = []
+    for rel, text in corpus():
+        if IMPORT_RE.search(text):
+            cl = import_closure(rel, text)
+            if cl and len(cl) > 1:
+                sets.append(cl)
+    return sets
